@@ -1,5 +1,6 @@
 import KafkaModel.Driver
 import KafkaModel.Replay
+import KafkaModel.Judge
 open Kafka Kafka.Spec Kafka.Driver
 
 structure Sess where
@@ -26,9 +27,10 @@ def stepLine (s : Sess) (line : String) : Sess × List String :=
   | "IO" :: _ => (s, [])
   | ["PING"] => (s, ["PONG"])
   | ["DUMP"] => (s, [toString (repr s.cluster), "ENDDUMP"])
-  | ["END"] =>
+  | "END" :: props =>
     let ms := Kafka.Replay.replayLines true s.trace.toList
-    ({ cluster := {}, trace := #[] }, ms.map ("MISMATCH " ++ ·) ++ [s!"DONE {ms.length}"])
+    let js := props.flatMap fun p => (Kafka.Judge.judge p s.trace.toList).map (s!"JUDGE {p} " ++ ·)
+    ({ cluster := {}, trace := #[] }, ms.map ("MISMATCH " ++ ·) ++ js ++ [s!"DONE {ms.length + js.length}"])
   | [] => (s, [])
   | _ =>
     match setup s.cluster toks with
@@ -48,12 +50,14 @@ def main (args : List String) : IO UInt32 := do
   | ["serve"] =>
     serveLoop (← IO.getStdin) (← IO.getStdout) {}
     return 0
-  | ["replay", file] =>
+  | "replay" :: file :: props =>
     let lines := (← IO.FS.lines file).toList
     let ms := Kafka.Replay.replayLines true lines
     for m in ms do IO.println ("MISMATCH " ++ m)
-    IO.println s!"DONE {ms.length}"
-    return (if ms.isEmpty then 0 else 1)
+    let js := props.flatMap fun p => (Kafka.Judge.judge p lines).map (s!"JUDGE {p} " ++ ·)
+    for j in js do IO.println j
+    IO.println s!"DONE {ms.length + js.length}"
+    return (if ms.isEmpty && js.isEmpty then 0 else 1)
   | _ =>
     IO.eprintln "usage: kmodel serve | replay <trace>"
     return 2
